@@ -643,3 +643,48 @@ unit(id="slicing.to_bound", src="src/instruction/slicing.rs", path=[("impl", "Sl
          ("slicing.to_bound.never_isize_min", ["C09"], "r > isize::MIN"),
          ("slicing.to_bound.identity_above_min", ["C09"], "index > i64::MIN ==> r as int == index as int"),
      ])
+
+# ---------------------------------------------------------------- recreate of statements ----
+RB = f"rec_res(self.0.instruction, {RS0})"
+unit(id="loop.recreate", src="src/instruction/loop.rs", path=[("impl", "Recreate for Loop"), ("fn", "recreate")], impl="Loop",
+     stubs=["iws.recreate"],
+     ensures=[
+         ("loop.recreate.stays_a_loop_around_the_recreated_body", ["C04", "C12"],
+          f"(match {RB} {{ Err(e) => r == Err::<Instruction, ExecError>(e), "
+          f"Ok(b) => r is Ok && r->Ok_0 is Loop && r->Ok_0->Loop_0.0.instruction == b }}) "
+          f"&& {RS9} == rec_st(self.0.instruction, {RS0})"),
+     ])
+_BR = f"rseq_res(self.instructions@, lv_layer({RS0}), 0, Seq::empty())"
+unit(id="block.recreate", src="src/instruction/block.rs", path=[("impl", "Recreate for Block"), ("fn", "recreate")], impl="Block",
+     ensures=[
+         ("block.recreate.bindings_do_not_leak_out_of_the_block", ["C04"], f"{RS9} == {RS0}"),
+         ("block.recreate.statements_recreated_in_a_new_layer", ["C04"],
+          f"(match {_BR} {{ Err(e) => r == Err::<Instruction, ExecError>(e), "
+          f"Ok(is) => r is Ok && r->Ok_0 is Block && r->Ok_0->Block_0.instructions@.len() == is.len() "
+          f"&& (forall|i: int| 0 <= i < is.len() ==> r->Ok_0->Block_0.instructions@[i].instruction == is[i]) }})"),
+     ])
+RI = f"rec_res(self.instruction.instruction, {RS0})"
+RI_ST = f"rec_st(self.instruction.instruction, {RS0})"
+unit(id="set.recreate", src="src/instruction/set.rs", path=[("impl", "Recreate for Set"), ("fn", "recreate")], impl="Set",
+     stubs=["iws.recreate"],
+     ensures=[
+         ("set.recreate.binds_the_recreated_value", ["C04"],
+          f"(match {RI} {{ Err(e) => r == Err::<Instruction, ExecError>(e) && {RS9} == {RI_ST}, "
+          f"Ok(v) => r is Ok && r->Ok_0 is Set && r->Ok_0->Set_0.ident == self.ident && r->Ok_0->Set_0.instruction.instruction == v "
+          f"&& {RS9} == lv_insert({RI_ST}, self.ident, lv_of_instruction(v)) }})"),
+     ])
+RX = f"rec_res(self.expression.instruction, {RS0})"
+RX_ST = f"rec_st(self.expression.instruction, {RS0})"
+_IFM_ST = f"lv_insert(lv_layer({RX_ST}), self.ident, LocalVariable::Other(self.var_type))"
+unit(id="setifelse.recreate", src=CF + "set_if_else.rs", path=[("impl", "Recreate for SetIfElse"), ("fn", "recreate")],
+     impl="SetIfElse", stubs=["iws.recreate"],
+     ensures=[
+         ("setifelse.recreate.keeps_both_branches_and_scopes_the_binding", ["C04", "C12"],
+          f"(match {RX} {{ Err(e) => r == Err::<Instruction, ExecError>(e), Ok(x) => "
+          f"(match rec_res(self.if_match.instruction, {_IFM_ST}) {{ Err(e) => r == Err::<Instruction, ExecError>(e), Ok(m) => "
+          f"(match rec_res(self.else_instruction.instruction, {RX_ST}) {{ Err(e) => r == Err::<Instruction, ExecError>(e), Ok(el) => "
+          f"r is Ok && r->Ok_0 is SetIfElse && r->Ok_0->SetIfElse_0.ident == self.ident && r->Ok_0->SetIfElse_0.var_type == self.var_type "
+          f"&& r->Ok_0->SetIfElse_0.expression.instruction == x && r->Ok_0->SetIfElse_0.if_match.instruction == m "
+          f"&& r->Ok_0->SetIfElse_0.else_instruction.instruction == el "
+          f"&& {RS9} == rec_st(self.else_instruction.instruction, {RX_ST}) }}) }}) }})"),
+     ])
